@@ -36,6 +36,15 @@ KEY_CONFIGS = [
     ('twocerts-edca-rsaca', ['rsa-sha2-256-cert-v01@openssh.com', 'ssh-ed25519-cert-v01@openssh.com'], {'rsa_bits': 4096, 'ca': 'ed25519', 'ca_by_alg': {'ssh-ed25519-cert-v01@openssh.com': ('rsa', 2048)}}),
 ]
 GEX_SIZES = [1024, 2048, 3072, 4096]
+# values of the free-form parts of a host certificate (none of them is a recorded attribute; all of them are the peer's to choose)
+CERT_FIELD_SETS = {
+    'id-empty': {'key_id': b''}, 'id-utf8': {'key_id': 'h\u00f4te-web-01'.encode()}, 'id-latin1': {'key_id': b'h\xf4te'}, 'id-0x80': {'key_id': b'\x80'}, 'id-0xff': {'key_id': b'\xff\xff\xff'},
+    'id-nul-tab': {'key_id': b'a\x00b\tc'}, 'id-long': {'key_id': b'k' * 300}, 'id-punct': {'key_id': b'# , = + / @'},
+    'principals-none': {'principals': []}, 'principals-many-nonascii': {'principals': [b'a.example', 'b\u00fccher.example'.encode(), b'\xff']},
+    'serial-max': {'serial': 2 ** 64 - 1}, 'serial-zero': {'serial': 0}, 'validity-inverted': {'valid_after': 2 ** 63, 'valid_before': 1},
+    'critical-and-extensions': {'critical': b'\x00\x00\x00\x03abc\x00\x00\x00\x00', 'extensions': b'\x00\x00\x00\x01\xe9\x00\x00\x00\x00'}, 'nonce-short-0xff': {'nonce': b'\xff'},
+    'reserved-nonempty': {'reserved': b'\x80\x81'},
+}
 INSERT = {'kex': 'diffie-hellman-group14-sha256', 'key': 'ssh-dss', 'enc': 'aes192-ctr', 'mac': 'hmac-md5'}
 FIELD = {'kex': 'Key exchanges', 'key': 'Host keys', 'enc': 'Ciphers', 'mac': 'MACs'}
 
@@ -56,6 +65,9 @@ def peers(tier):
         for g in (768, 1024, 2048):
             out.append({'kn': kn + '-gexfirst', 'kex': ['kex+odd/name@example.org', 'diffie-hellman-group-exchange-sha256', 'curve25519-sha256'], 'key': keys,
                         'enc': ENC_VARIANTS[0], 'mac': MAC_VARIANTS[0], 'hk': kw, 'gex': g, 'gex_style': P.LENIENT})
+    for kn, keys, kw in (KEY_CONFIGS[4], KEY_CONFIGS[6], KEY_CONFIGS[8]):
+        for label in sorted(CERT_FIELD_SETS):
+            out.append({'kn': '%s-%s' % (kn, label), 'kex': KEX_VARIANTS[0], 'key': keys, 'enc': ENC_VARIANTS[0], 'mac': MAC_VARIANTS[0], 'hk': dict(kw, cert_fields=label), 'gex': None})
     # legal but unusual shapes: an empty name-list (AEAD-only server without MACs, GSSAPI-only server without host keys, ...)
     for cat in ('kex', 'key', 'enc', 'mac'):
         spec = {'kn': 'empty-' + cat, 'kex': ['curve25519-sha256'], 'key': ['ssh-ed25519'], 'enc': ['aes256-gcm@openssh.com'],
@@ -66,7 +78,10 @@ def peers(tier):
 
 
 def make_server(spec):
-    hk = P.standard_host_keys(spec['key'], **spec['hk'])
+    hkw = dict(spec['hk'])
+    if isinstance(hkw.get('cert_fields'), str):
+        hkw['cert_fields'] = CERT_FIELD_SETS[hkw['cert_fields']]
+    hk = P.standard_host_keys(spec['key'], **hkw)
     g = spec.get('gex')
     style = spec.get('gex_style', P.STRICT)
     gex = ({a: P.GexPolicy([v], style) for a, v in g.items()} if isinstance(g, dict) else P.GexPolicy([g], style)) if g else None
